@@ -10,7 +10,8 @@ Steps(n) == [a : {"open"}, p : {1, 2}, i : {0}, src : Sources, dt : {0}]
        \* losenext: a fetch whose request is served but whose reply gets lost on the way back
        \cup [a : {"next", "close", "losenext"}, p : {0}, i : 1..n, src : {[len |-> 0, raiseAt |-> 0]}, dt : {0}]
        \* break: the connection is cut by the environment (the client only notices at its next request, which then fails)
-       \cup [a : {"disconnect", "reconnect", "break"}, p : {1, 2}, i : {0}, src : {[len |-> 0, raiseAt |-> 0]}, dt : {0}]
+       \* fail: another method of the object that hands out the streams is called and raises (nothing to do with any stream)
+       \cup [a : {"disconnect", "reconnect", "break", "fail"}, p : {1, 2}, i : {0}, src : {[len |-> 0, raiseAt |-> 0]}, dt : {0}]
        \cup [a : {"housekeep"}, p : {0}, i : {0}, src : {[len |-> 0, raiseAt |-> 0]}, dt : {0}]
        \cup [a : {"tick"}, p : {0}, i : {0}, src : {[len |-> 0, raiseAt |-> 0]}, dt : {2, 5, 11}]
 Init == h = <<>> /\ nopen = 0
